@@ -79,8 +79,27 @@ def main():
         res["baseline_compare"] = o.strip().split("\n")[:8]
         res["existing_tests_pass"] = rc == 0
         os.remove(xml)
-    # 4. our check
-    env = dict(os.environ, VERIF_REPO=wt)
+    # 4. our check, on a tree that is /repo's CURRENT HEAD plus the patch (the
+    #    writer's worktree may predate later fix commits, whose absence would
+    #    be reported as violations of their own)
+    head = sh("git -C /repo rev-parse --short HEAD")[1].strip()
+    tree = wt
+    if head != res["worktree_base"]:
+        rt = "/tmp/regress_%s" % name
+        sh("git -C /repo worktree remove --force %s; rm -rf %s" % (rt, rt))
+        rc, o = sh("%s/tools/mk_seed_wt.sh %s" % (VERIF, rt))
+        pf = "/tmp/regress_%s.patch" % name
+        open(pf, "w").write(patch if patch.endswith("\n") else patch + "\n")
+        rc, o = sh("git -C %s apply %s" % (rt, pf))
+        os.remove(pf)
+        if rc == 0:
+            if ".pyx" in patch or ".pxd" in patch:
+                sh("cd %s && /venv/bin/python setup.py build_ext --inplace -j 4" % rt)
+            tree = rt
+        else:
+            sh("git -C /repo worktree remove --force %s; rm -rf %s" % (rt, rt))
+    res["check_tree"] = "HEAD %s + patch" % head if tree != wt else "writer's worktree (%s)" % res["worktree_base"]
+    env = dict(os.environ, VERIF_REPO=tree)
     rc, o = sh("cd %s && timeout 2400 ./check %s --tier quick" % (VERIF, pid), env=env)
     lines = [l for l in o.split("\n") if l.startswith("VIOLATION") or l.startswith("KNOWN-FINDING")
              or "  ->" in l]
@@ -90,6 +109,9 @@ def main():
     res["caught"] = rc == 1 and any(l.startswith("VIOLATION property=%s" % pid) for l in lines)
     res["caught_with_input"] = any(l.startswith("VIOLATION") and "no-failing-input-found" not in l
                                    for l in lines)
+    if tree != wt:
+        sh("git -C /repo worktree remove --force %s; rm -rf %s; git -C /repo worktree prune" % (tree, tree))
+        shutil.rmtree(os.path.join(VERIF, ".evidence_scratch", os.path.basename(tree)), ignore_errors=True)
     # restore generated files that depend on the tree under test
     sh("cd %s && /venv/bin/python lib/gen_all.py" % VERIF)
     d = os.path.join(VERIF, "seeded", name)
@@ -116,6 +138,7 @@ def main():
             "baseline_compare": res.get("baseline_compare"),
         },
         "what_we_ran": res["check_cmd"],
+        "check_tree": res["check_tree"],
         "check_exit": res["check_exit"],
         "caught": res["caught"],
         "caught_with_concrete_input": res["caught_with_input"],
